@@ -1,6 +1,8 @@
 package props
 
 import (
+	"os"
+
 	"verif/harness/hist"
 )
 
@@ -19,6 +21,22 @@ func avoidFor(prop string) func(hist.Step, *hist.MRunner) string {
 		case "create", "openfile":
 			if mr.OpenPaths()[hist_clean(s.Path)] {
 				return "interp:two-handles-one-file"
+			}
+			if s.Op == "openfile" {
+				acc := s.Flag & (os.O_WRONLY | os.O_RDWR)
+				if acc == 0 && s.Flag&os.O_TRUNC != 0 {
+					return "interp:O_TRUNC-with-O_RDONLY-is-unspecified"
+				}
+				if n := mr.M.Get(s.Path); n != nil && n.Kind == "dir" && s.Flag&os.O_APPEND != 0 {
+					return "interp:O_APPEND-on-a-directory"
+				}
+			}
+		}
+		// Guards of open findings (active only while the finding still reproduces).
+		switch s.Op {
+		case "chmod", "chown", "chtimes":
+			if guard("F-24") && mr.OpenPaths()[hist_clean(s.Path)] {
+				return "F-24"
 			}
 		}
 		return ""
